@@ -320,7 +320,9 @@ std::string run(const Args& a) {
 			// Oblivion keeps tangents in a NiBinaryExtraData block that FinalizeData materialises on the first save of a model
 			// whose tangents were computed in memory: block numbering legitimately changes once; the logical answers
 			// (shapes, nodes, textures, flags by name) are still compared with the state before the save
-			if (k == 0 && a[2] != "default" && nif.GetHeader().GetVersion().IsOB() && q.size() != q0.size()) {
+			// (the same holds when the block exists already and the tangents were recomputed in memory: the first save brings
+			// the block up to date, so what the block holds is not compared across that save)
+			if (k == 0 && a[2] != "default" && nif.GetHeader().GetVersion().IsOB()) {
 				auto logical = [](const std::vector<std::pair<std::string, std::string>>& v) {
 					std::vector<std::pair<std::string, std::string>> r;
 					for (auto& e : v)
